@@ -135,7 +135,7 @@ PLANS = {
     ),
     'C11': dict(
         oracle='C11', level='exploration',
-        profiles=[('blocking', 6)], curated=[], configs=ALLCFG,
+        profiles=[('blocking', 4), ('blocking_joint', 3)], curated=[], configs=ALLCFG,
         cp=dict(max_ops=30, kinds=['P', 'P', 'P', 'P', 'P', 'Q', 'X', 'T'], scripts={'p': ['r', 'Q']}),
         examples=(300, 1250), floor=(10, 40),
         rule='Generated histories on machines whose root declares terminate and interrupt states (1-3 regions, single and multiple '
@@ -174,7 +174,7 @@ PLANS = {
     ),
     'C12': dict(
         oracle='C12', level='fault_enumeration', mode='fault_enum', keep_cases=6, post='c12_uninit',
-        profiles=[('throw', 3), ('throw_after_action', 1), ('throw_after_exit', 1), ('throw_before', 1)], curated=[], configs=ALLCFG,
+        profiles=[('throw', 2), ('throw_after_action', 2), ('throw_after_exit', 1), ('throw_before', 1)], curated=[], configs=ALLCFG,
         cp=dict(kinds=['P', 'P', 'P', 'Q', 'X'], scripts={'p': ['r', 'Q']}, cont_scripts={'p': ['r', 'Q'], 't': True}, max_prefix=8, max_cont=5),
         examples=(60, 250), floor=(150, 600),
         rule='Fault enumeration: for each generated (machine, prefix history, step) the step is first run fault-free to count its '
